@@ -14,7 +14,8 @@ CLAIMS = {
         "every scale-variation splitting kernel) the identity d/dx loc(x) + sing(x) == 0 for all x, nf, L, masses: "
         "the x-derivative of loc(x) = delta - int_0^x sing. A structural/algebraic clause, not the numerical behaviour: "
         "finiteness and realness of values, regular parts and delta itself are not decided; instances outside the "
-        "translatable fragment are printed as UNDECIDED and counted.",
+        "translatable fragment are printed as UNDECIDED and counted. Also decided (pure): every part that is a closure or bound method folds to the "
+        "same function when evaluated three times with the same arguments (no state kept between evaluations).",
         "Trusted: CPython ast; yadsa normaliser (5e-5 relative tolerance per monomial); summaries li2 = dilogarithm, "
         "spence(z) = Li2(1-z); eko.constants read from installed source. Kernel variable assumed in (0,1).",
         "DESIGN.md section 3, C03",
@@ -83,7 +84,9 @@ CLAIMS = {
         "FFN0 operators carry exactly the same (coupling weight, physical channel) pairs - the channel being the class that produced each kernel, "
         "classified by yadism's own name rules - except the frozen power-suppressed case F_L at LO; and at each order the Asy{N^k}LL classes of a "
         "channel provide every power of the collinear logarithm. An asymptotic term without massive counterpart can never cancel; a massive "
-        "term without asymptotic partner does not vanish.",
+        "term without asymptotic partner does not vanish. Also: every asymptotic kernel carries the mass of the quark its weights name; vector and "
+        "axial weights multiply the same kernel combination; every massive / asymptotic / intrinsic kernel is a function of its arguments "
+        "(repeated evaluation folds to the same function).",
         "Trusted: CPython ast; yadsa partial evaluator with opaque weights and kernel provenance; F_L(LO, massive) is proportional to m^2/Q^2.",
         "DESIGN.md section 3, C08",
     ),
@@ -105,7 +108,8 @@ CLAIMS = {
         "nested integrals; approximate = published closed forms) of the operators folded without TMC at the Nachtmann point and at the grid "
         "nodes, the integrals being the opaque quadratures of the kernels whose folded closed form is z/xi, 1-z, z ln(1/z)/xi convolved with the "
         "right structure function; xi, rho, mu and shifted kinematics equal their definitions; the result carries the requested x, Q2; integral "
-        "coefficients vanish and the F(xi) coefficient tends to 1 as M -> 0. NOT decided: quadrature accuracy (rejection guards: C16.kin).",
+        "coefficients vanish and the F(xi) coefficient tends to 1 as M -> 0; with a target mass of exactly 0 the corrected operator is the "
+        "uncorrected one; the corrected operator does not depend on other observables sharing its kinematics objects. NOT decided: quadrature accuracy (rejection guards: C16.kin).",
         "Trusted: CPython ast; yadsa partial evaluator; the literature formulas written in rules/c10.py (not taken from the code); yadism's F3 "
         "is xF3 and g1 is 2xg1 (C02.lo).",
         "DESIGN.md section 3, C10",
@@ -188,7 +192,9 @@ CLAIMS = {
         "the per-point calculation ends in an operator or in an explicit raise ValueError|NotImplementedError(message), never in a "
         "KeyError/AttributeError/IndexError/ModuleNotFoundError/TypeError; kinematic guards reject exactly the complement of 0<x<=1, Q2>0, "
         "x>=grid minimum for the requested point with and without TMC (concrete orderings); Runner.get_result returns the output of "
-        "replace_nans_with_0, which zeroes every observable/point/order/member slot of a probe output. NOT decided: that surviving operator "
+        "replace_nans_with_0, which zeroes every observable/point/order/member slot of a probe output; every (projection, current) pair handed to "
+        "LeProHQ is tabulated by the installed library (tables read from its source); conv.convolution returns for every shape of distribution "
+        "(any subset of regular/singular/local part, both grid modes). NOT decided: that surviving operator "
         "entries are finite (a numerical statement about LeProHQ, quadrature and the N3LO grids).",
         "Trusted: CPython ast; yadsa partial evaluator and its inert summaries of eko/numpy/scipy objects; generic-point folding "
         "(a non-constant polynomial weight is non-zero); heavy coefficient functions folded above threshold; 0<xi<=x for the TMC point.",
@@ -211,8 +217,10 @@ CLAIMS = {
         "Decides the static clauses of C18: for every RSL part of every partonic channel/order (folded through the MRO), every splitting "
         "kernel and the TMC kernels, demand on the float vector `args` <= values supplied for that part, with nf/L/variation role agreement; "
         "every njit body calls only njit functions or whitelisted numpy/builtins and captures only numeric module constants; signature "
-        "arity, kernel-to-kernel call arity/types, no complex value returned from an f8 kernel; captured globals are never written from a "
-        "function. NOT decided: agreement of compiled and interpreted values to rounding (numerical).",
+        "arity, kernel-to-kernel call arity/types, no complex value returned from an f8 kernel, no integer ** negative integer, no declared type "
+        "narrower than float64/complex128/int64; captured globals are never written from a function; interpreted call sites of compiled kernels "
+        "pass nothing only the interpreter accepts; every local of a compiled body is assigned on every path before it is read (numba "
+        "zero-initialises where the interpreter raises). NOT decided: agreement of compiled and interpreted values to rounding (numerical).",
         "Trusted: CPython ast; yadsa resolver; the whitelist of numba-supported numpy/builtin calls in rules/c18.py; decorator signature "
         "strings are the only typing contract.",
         "DESIGN.md section 3, C18",
@@ -221,7 +229,7 @@ CLAIMS = {
         "partial evaluation of runner construction/results/upgrade on a lattice of cards with before/after snapshots and aliasing checks",
         "Decides: over 5 FNS x target spellings x TMC x structure-function/cross-section mixes x legacy card spellings, folding "
         "Runner(theory, observables), get_result() twice, a second construction from the same dict objects and compatibility.update twice leaves "
-        "the caller's dictionaries (nested kinematics lists and target dicts included) key- and value-identical to a snapshot at every stage; "
+        "the caller's dictionaries (nested kinematics lists, target dicts and array-valued entries included: array memory is watched) key- and value-identical to a snapshot at every stage; "
         "the output echoes cards equal to those given, the requested grid, eko's flavour-basis pids, the projectile used and every point at its "
         "requested kinematics in request order; each get_result() is a fresh copy sharing no container with another call, the runner or the "
         "caller; the legacy upgrade is idempotent. NOT decided: mutation inside external libraries.",
